@@ -438,6 +438,10 @@ impl Prop for Meta {
         if g.n == 0 || g.n > 1100 {
             return Ok(());
         }
+        let (_scope, chosen) = satwrap::ChoiceScope::for_case(case);
+        if chosen {
+            rec.class("sat-backend-returns-chosen-models");
+        }
         let adj = Adj::new(&g);
         let comps = adj.components();
         let queried: Vec<usize> = {
